@@ -397,6 +397,51 @@ func (n *WorkflowNode) checkAndAddMappedPath(paths []FieldPath) error {
 	return nil
 }
 
+// validateStaticValue checks at compile time that a static value can be assigned to its field path of the node's input.
+func validateStaticValue(nodeKey string, path FieldPath, value any, inputType reflect.Type) error {
+	if inputType == nil {
+		// input type is not known yet (passthrough), nothing to check against
+		return nil
+	}
+
+	if len(path) == 0 {
+		return fmt.Errorf("static value of node %s has an empty field path", nodeKey)
+	}
+
+	anyType := reflect.TypeOf((*any)(nil)).Elem()
+	if !validateStructOrMap(inputType) && inputType != anyType {
+		return fmt.Errorf("static value of node %s: input type should be struct or map, actual: %v", nodeKey, inputType)
+	}
+
+	fieldType, intermediateInterface, err := checkAndExtractFieldType(path, inputType)
+	if err != nil {
+		return fmt.Errorf("static value of node %s has an invalid field path %v: %w", nodeKey, path, err)
+	}
+
+	if intermediateInterface {
+		if fieldType == anyType {
+			return nil // at request time this 'any' is expanded to 'map[string]any'
+		}
+		return fmt.Errorf("static value of node %s: field path %v has intermediate interface type %v", nodeKey, path, fieldType)
+	}
+
+	valueType := reflect.TypeOf(value)
+	if valueType == nil {
+		switch fieldType.Kind() {
+		case reflect.Map, reflect.Slice, reflect.Ptr, reflect.Interface:
+			return nil
+		default:
+			return fmt.Errorf("static value of node %s: nil is not assignable to field path %v of type %v", nodeKey, path, fieldType)
+		}
+	}
+
+	if !valueType.AssignableTo(fieldType) {
+		return fmt.Errorf("static value of node %s: value of type %v is not assignable to field path %v of type %v", nodeKey, valueType, path, fieldType)
+	}
+
+	return nil
+}
+
 type WorkflowBranch struct {
 	fromNodeKey string
 	*GraphBranch
@@ -465,6 +510,10 @@ func (wf *Workflow[I, O]) compile(ctx context.Context, options *graphCompileOpti
 			value := make(map[string]any, len(n.staticValues))
 			var paths []FieldPath
 			for path, v := range n.staticValues {
+				if err := validateStaticValue(n.key, splitFieldPath(path), v, wf.g.getNodeInputType(n.key)); err != nil {
+					return nil, err
+				}
+
 				value[path] = v
 				paths = append(paths, splitFieldPath(path))
 			}
